@@ -491,6 +491,88 @@ def relay_player_set(pid="C02q"):
     return C
 
 
+QEP = "mpf/config_players/queue_event_player.py"
+
+
+def queue_event_player_set():
+    """queue_event_player: the configured queue event is posted once with its args and a completion callback; when the
+    event is done (the event manager calls the callback with the event's kwargs) events_when_finished is posted once"""
+    C = ContractSet("C02e", "queue_event_player posts its queue event and its finished event")
+    C.strings = False
+    C.cls("ConfigPlayer", fields={})
+    C.cls("EventManagerQ", fields={})
+
+    def post_queue(I, env, a, k):
+        k = dict(k)
+        if len(a) >= 2:
+            cb = a[1]
+        elif "callback" in k:
+            cb = k.pop("callback")
+        else:
+            I.raise_("TypeError", "post_queue() missing 1 required positional argument: 'callback'")
+        emit(I, "post_queue", event=a[0] if a else k.pop("event"), callback=cb, kwargs=k)
+        return NONE
+    C.ext("EventManagerQ.post_queue", model=post_queue,
+          trusted_reason="EventManager.post_queue(event, callback, **kwargs): the callback is a REQUIRED argument (C02 main "
+                         "set: it is called once, with the event's kwargs, when the queue event is done)")
+    C.ext("EventManagerQ.post", model=lambda I, env, a, k: (emit(I, "post", event=a[0], kwargs=dict(k)), NONE)[1],
+          trusted_reason="EventManager.post (C01)")
+
+    def args_init(I, name):
+        if I.ctx.fork(2) == 0:
+            return I.new_dict((), name)
+        return I.new_dict((("x", VInt(z3.Int(name + "[x]"))),), name)
+    C.cls("QueueEventPlayer", file=QEP, bases=["ConfigPlayer"], fields=dict(
+        machine=ObjS("MachineController", events=ObjS("EventManagerQ"))))
+    C.fn("QueueEventPlayer._callback", inline=True, no_inv=True)
+    for demo_ in ("c02_queue_event_player_without_finished.py", "c02_queue_event_player_finished_with_args.py"):
+        C.finite_checks.append(common.native_demo_check(demo_, "queue_event_player: the queue event is posted and "
+                                                               "events_when_finished follows its completion"))
+
+    def completes(I, env=None):
+        """environment step: the queue event completes - the event manager calls the completion callback with the event's
+        kwargs (events.py: callback(**kwargs))"""
+        for e in events_named(I, "post_queue"):
+            cb = I.force(e.args["callback"])
+            if cb.tag == "fn":
+                I.call(cb, [], dict(e.args["kwargs"]))
+
+    def played(I, settings):
+        st = I.force(settings)
+        qe, fin, args = (I.getitem(st, VStr(k_)) for k_ in ("queue_event", "events_when_finished", "args"))
+        pq = events_named(I, "post_queue")
+        if len(pq) != 1:
+            return VBool(False)
+        argc = I.container(I.force(args).ref).entries
+        same_kw = lambda kw: z3.And([z3.BoolVal(set(kw) == {k_ for k_, _ in argc})] +
+                                    [I.eq(kw[k_], v_) for k_, v_ in argc if k_ in kw])
+        posts = events_named(I, "post")
+        finf = I.force(fin)
+        cases = []
+        for g_, alt in (finf.alts if isinstance(finf, VUnion) else ((z3.BoolVal(True), finf),)):
+            if alt.tag == "none":
+                cases.append(z3.And(g_, z3.BoolVal(len(posts) == 0)))
+            else:
+                ok = len(posts) == 1
+                cases.append(z3.And(g_, z3.BoolVal(ok), *([I.eq(posts[0].args["event"], alt), same_kw(posts[0].args["kwargs"])]
+                                                         if ok else [])))
+        return VBool(z3.And(I.eq(pq[0].args["event"], qe), same_kw(pq[0].args["kwargs"]), z3.Or(cases)))
+    C.helpers["played_and_finished"] = played
+    C.trace_helpers = {"played_and_finished"}
+    C.fn("QueueEventPlayer.play",
+         params=dict(settings=Rec(queue_event=Str, events_when_finished=Opt(Str), args=Init(args_init)), context=Str,
+                     calling_context=Str, priority=Int, kwargs=Opaque("Kwargs")),
+         requires=[("an empty events_when_finished is None (config validation)",
+                    "settings['events_when_finished'] is None or settings['events_when_finished'] != ''")],
+         epilogue=completes,
+         ensures=[("QP1: the configured queue event is posted exactly once with the configured args - with or without an "
+                   "events_when_finished setting - and when it completes (the event manager calls the completion callback "
+                   "with the event's kwargs) events_when_finished, if configured, is posted exactly once with those args; "
+                   "nothing raises on the way", "played_and_finished(settings)")],
+         modifies=[], raises={})
+    return C
+
+
 def build_extra():
     """relay / boolean dispatch and the priority order of the handler list are C01's contracts on _run_handlers and
     add_handler: they are verified here too (restricted copy of C01's set)"""
@@ -502,4 +584,4 @@ def build_extra():
     # (C11's ModeController contracts), queue_relay_player holds and releases one queue event per relay
     from . import C11
     # the priority suffix of an event string ('name.N', negative N included) gets its meaning in one parser (C01's set)
-    return [c01, C11.mode_controller_set("C02m"), relay_player_set(), C01.parse_set("C02p")]
+    return [c01, C11.mode_controller_set("C02m"), relay_player_set(), C01.parse_set("C02p"), queue_event_player_set()]
